@@ -146,6 +146,11 @@ PROPS = {
               assumptions=["packet counts below 2^53 (u64 -> f64 conversion exact); u64 counter overflow needs 2^64 events and is not modelled"]),
     "C03": fw([("general", 2500, 40000)], {"A", "RB", "G", "res", "len"}, mech=["aB"],
               assumptions=["the blocked share is the IEEE double the code computes (as_secs_f64 of both durations, one division); the exact-arithmetic reading holds up to that rounding"]),
+    "C07": fw([("c07", 2000, 40000), ("general", 1000, 20000)], {"A", "RS", "L", "res", "len"}, mech=["LR", "lim0"]),
+    "C08": fw([("c08", 2000, 40000), ("general", 1000, 20000)], {"RC", "RZ", "L", "A", "res", "len"}, mech=["CZ", "ctr"]),
+    "C09": fw([("c09", 2000, 40000), ("general", 1000, 20000)], {"GS", "L", "A", "res", "len"}, mech=["SIG", "SGN"]),
+    "C10": fw([("ni", 2000, 40000)], {"A", "AT", "res", "len"}, mech=["aP", "aB", "aT", "aC"],
+              assumptions=["the probe machine is draw-independent (probability-1 transitions, constant distributions) and neither signals nor is signalled; framework fractions are 0"]),
     "C04": fw([("general", 1500, 30000)], {"A", "AT", "res", "len"}, mech=["aP", "aB", "aT", "aC"]),
 }
 
